@@ -464,7 +464,9 @@ class GuardTracker(Tracker):
     `kill(ev, key)` decides whether an event invalidates a fact (default:
     a write to a path that occurs in the key, or a call listed in kill_calls)."""
 
-    def __init__(self, want, kill_calls=(), kill=None, keep_on_write=(), lock_tracker=None):
+    def __init__(self, want, kill_calls=(), kill=None, keep_on_write=(), lock_tracker=None, pure=(), def_names=None):
+        self.def_names = def_names    # restrict call-result (D:) facts to these locals (None = all); keeps the state space small
+        self.pure = set(pure)     # callees whose re-evaluation does not invalidate earlier outcomes (rule states why)
         # lock_tracker: when given, acquiring a lock `X->m` / `X.m` invalidates what was learnt about X's other
         # fields before (a test made before taking the lock that protects the object says nothing afterwards)
         self.lock_tracker = lock_tracker
@@ -512,6 +514,8 @@ class GuardTracker(Tracker):
             t = f.x(f.skip(e['sub']))
             if t is not None and t['k'] == 'ref':
                 pairs.append((t['name'], None))
+        if self.def_names is not None:
+            pairs = [p for p in pairs if p[0] in self.def_names]
         if not pairs:
             return st
         s = set(st)
@@ -522,17 +526,27 @@ class GuardTracker(Tracker):
             if init is not None and init >= 0:
                 ie = f.x(f.skip(init))
                 if ie is not None and ie['k'] == 'call' and ie.get('fn') not in ('likely', 'unlikely'):
-                    s.add('D:%s=%s' % (name, f.show(init, ev.ctx)))
+                    call = f.show(init, ev.ctx)
+                    s.add('D:%s=%s' % (name, call))
+                    # what is known about the value of that call expression right now is known about the local
+                    # that captures it (`if (q.front()->stealable()) { auto th = q.front(); ...`), provided the
+                    # rule declared the call pure (same value when re-evaluated without an intervening mutation)
+                    if strip_targs(ie.get('fn') or '') in self.pure:
+                        for g in list(s):
+                            if g.startswith('G:') and call in g:
+                                s.add(g.replace(call, name))
         return frozenset(s)
 
     def transfer(self, ev, st):
-        st = self._defs(ev, st)
+        return self._defs(ev, self._kills(ev, st))
+
+    def _kills(self, ev, st):
         gs = [x for x in st if x.startswith('G:')]
         if not gs:
             return st
         wp = self.written_path(ev)
         callee = ev.callee() if ev.kind in ('call', 'construct') else None
-        shown = ev.show() if ev.kind == 'call' else None
+        shown = ev.show() if ev.kind == 'call' and (ev.callee() or '') not in self.pure else None
         if shown is not None and '(' not in shown:
             shown = None      # operator-> / conversions print as the object path: not a re-evaluated call
         declared = [ev.f.decls[v['decl']]['name'] for v in ev.e['vars']] if ev.kind == 'declstmt' else ()
